@@ -48,6 +48,7 @@ type unit struct {
 var units = []unit{
 	{out: "JsonSrc", pkgDir: "internal/json"},
 	{out: "CborSrc", pkgDir: "internal/cbor", files: []string{"base.go", "cbor.go", "string.go", "types.go", "time.go"}},
+	{out: "RootSrc", pkgDir: ".", files: []string{"console.go", "encoder_json.go"}, only: []string{"needsQuote", "appendJSON"}},
 }
 
 func main() {
@@ -161,6 +162,18 @@ func translateUnit(repo string, u unit) (g genOut, err error) {
 				continue
 			}
 			name := fd.Name.Name
+			if len(u.only) > 0 {
+				keep := false
+				for _, o := range u.only {
+					if o == name {
+						keep = true
+					}
+				}
+				if !keep {
+					p.skipped[obj] = "not selected"
+					continue
+				}
+			}
 			used[name]++
 			order = append(order, obj)
 		}
@@ -235,6 +248,9 @@ func translateUnit(repo string, u unit) (g genOut, err error) {
 	for _, obj := range order {
 		if !p.done[obj] {
 			why := p.skipped[obj]
+			if why == "not selected" || why == "file not in the unit" {
+				continue
+			}
 			if why == "" {
 				why = "call cycle"
 			}
@@ -1457,6 +1473,11 @@ func (f *fnCtx) rangeStmt(s *ast.RangeStmt, rest []ast.Stmt, ex exits) string {
 		elem = u.Elem()
 	case *types.Array:
 		elem = u.Elem()
+	case *types.Basic:
+		if isString(xt) {
+			return f.rangeString(s, rest, ex)
+		}
+		fail("range over %s", xt)
 	default:
 		fail("range over %s", xt)
 	}
@@ -1466,6 +1487,53 @@ func (f *fnCtx) rangeStmt(s *ast.RangeStmt, rest []ast.Stmt, ex exits) string {
 	rng := f.expr(s.X)
 	rvar := f.tmp("rng")
 	return f.then(fmt.Sprintf("let %s := %s in", rvar, rng), "", func() string { return f.rangeBody(s, rvar, elem, rest, ex) })
+}
+
+// for i := range s over a string: i takes the byte offset of every rune start (utf8.DecodeRuneInString widths)
+func (f *fnCtx) rangeString(s *ast.RangeStmt, rest []ast.Stmt, ex exits) string {
+	if s.Tok != token.DEFINE {
+		fail("range over a string with =")
+	}
+	if id, ok := s.Value.(*ast.Ident); s.Value != nil && !(ok && id.Name == "_") {
+		fail("range over a string with a rune variable")
+	}
+	kid, ok := s.Key.(*ast.Ident)
+	if !ok || kid.Name == "_" {
+		fail("range over a string without an index variable")
+	}
+	rng := f.expr(s.X)
+	rvar := f.tmp("rng")
+	return f.then(fmt.Sprintf("let %s := %s in", rvar, rng), "", func() string {
+		f.nloop++
+		name := fmt.Sprintf("%s_loop%d", f.fname, f.nloop)
+		key := f.nameOf(f.p.info.ObjectOf(kid))
+		free := f.freeVars([]ast.Node{s.Body})
+		mods := f.assigned([]ast.Node{s.Body})
+		filter := func(l []types.Object) []types.Object {
+			var r []types.Object
+			for _, o := range l {
+				if f.names[o] != key {
+					r = append(r, o)
+				}
+			}
+			return r
+		}
+		free, mods = filter(free), filter(mods)
+		params, args, modArgs, mty, mpat := f.loopSig(name, "", free, mods)
+		savedPre := f.pre
+		f.pre = nil
+		step := fmt.Sprintf("(%s + snd (utf8_DecodeRune (slice %s %s (len %s))))", key, rvar, key, rvar)
+		rec := fmt.Sprintf("%s(*ORCA*) fuel %s %s %s", name, rvar, step, strings.Join(args, " "))
+		exit := "Ok (LExit " + tupleOf(modArgs) + ")"
+		inner := exits{inLoop: true, ret: func(v string) string { return "Ok (LRet " + paren(v) + ")" }, brk: func() string { return exit },
+			next: func() string { return rec }, cont: func() string { return rec }}
+		body := f.block(s.Body.List, inner)
+		f.pre = savedPre
+		f.loops = append(f.loops, fmt.Sprintf("Fixpoint %s (*ORC*)(fuel : nat) (%s : list N) (%s : Z) %s {struct fuel} : res (lres %s %s) :=\n  match fuel with\n  | O => Fuel\n  | S fuel =>\n    if (%s <? len %s) then (\n%s)\n    else %s\n  end.\n",
+			name, rvar, key, params, f.resType, mty, key, rvar, indent(body, 3), exit))
+		call := fmt.Sprintf("%s(*ORCA*) (S (length %s)) %s 0 %s", name, rvar, rvar, strings.Join(args, " "))
+		return f.afterLoop(call, mpat, rest, ex)
+	})
 }
 
 func (f *fnCtx) rangeBody(s *ast.RangeStmt, rvar string, elem types.Type, rest []ast.Stmt, ex exits) string {
